@@ -759,7 +759,8 @@ class SampleObj(dict):
         return self is not other
 
 
-def mini_exec(fn: ast.FunctionDef, args: Dict[str, object], budget: int = 2000, methods: Optional[Dict[str, ast.FunctionDef]] = None, _depth: int = 0):
+def mini_exec(fn: ast.FunctionDef, args: Dict[str, object], budget: int = 2000, methods: Optional[Dict[str, ast.FunctionDef]] = None, _depth: int = 0,
+              functions: Optional[Dict[str, ast.FunctionDef]] = None):
     """Runs a small, side-effect-free function of the analysed program on *sample* arguments with the analyser's own
     interpreter (assignments to names, if / for / while-free loops over lists and ranges, return, and the expression forms
     of _PathEval plus range / min / max / zip / enumerate / all / any).  Anything else raises _PathEval.Unknown."""
@@ -791,7 +792,26 @@ def mini_exec(fn: ast.FunctionDef, args: Dict[str, object], budget: int = 2000, 
                 for k in e.keywords:
                     if k.arg:
                         call_args[k.arg] = ev(k.value)
-                return mini_exec(m, call_args, budget, methods, _depth + 1)
+                return mini_exec(m, call_args, budget, methods, _depth + 1, functions)
+        if isinstance(e, ast.Call) and isinstance(e.func, ast.Name) and functions and e.func.id in functions and _depth < 12:
+            # a function of the program called by name (a nested helper sees the variables of the function around it)
+            g_ = functions[e.func.id]
+            ps_ = [a.arg for a in g_.args.args]
+            call_env = {k: v for k, v in env.items() if k not in ps_}
+            for pn, ax in zip(ps_, e.args):
+                call_env[pn] = ev(ax)
+            for k in e.keywords:
+                if k.arg:
+                    call_env[k.arg] = ev(k.value)
+            if any(p_ not in call_env for p_ in ps_[:len(ps_) - len(g_.args.defaults)]):
+                raise _PathEval.Unknown(f"call of {e.func.id} with missing arguments")
+            for p_, d_ in zip(ps_[len(ps_) - len(g_.args.defaults):], g_.args.defaults):
+                if p_ not in call_env:
+                    call_env[p_] = ev(d_)
+            steps[0] += 5
+            if steps[0] > budget:
+                raise _PathEval.Unknown("too many steps")
+            return mini_exec(g_, call_env, budget, methods, _depth + 1, functions)
         if isinstance(e, ast.Call) and isinstance(e.func, ast.Name) and e.func.id == "isinstance" and len(e.args) == 2:
             obj = ev(e.args[0])
             ks = e.args[1].elts if isinstance(e.args[1], ast.Tuple) else [e.args[1]]
